@@ -64,6 +64,34 @@ CLAIMED = {
                 "table {shared_formulas: R1C1/default, DefinedName.formula: A1/default} is the repo's own documented convention. " + TRUST,
         "technique": "typestate dataflow over the CFG (set_* transitions) + provenance of parse arguments + effect summaries",
     },
+    "C12": {
+        "level": "Static decision of the structure of insertion: spill reset dominates every relocation, array-formula pre-check dominates "
+                 "the first persistent write with no explicit error after it, formulas/links/conditional formats displaced together, "
+                 "descriptor shift provenance (or move order reversed iff delta>0), values moved as cells not re-typed text.",
+        "note": "The index maps (references, CF ranges, links, column descriptors) being equal/inverse is arithmetic over symbolic positions and is not decided; values after the edit are not decided. " + TRUST,
+        "technique": "CFG dominance + effect summaries + call-set agreement + operand provenance",
+    },
+    "C13": {
+        "level": "Static decision of the structure of deletion: spill reset dominates every relocation, array-formula pre-check dominates "
+                 "the first persistent write with no explicit error after it, formulas/links/conditional formats displaced together, "
+                 "descriptor shift provenance (or move order reversed iff delta>0), values moved as cells not re-typed text.",
+        "note": "The index maps (references, CF ranges, links, column descriptors) being equal/inverse is arithmetic over symbolic positions and is not decided; values after the edit are not decided. " + TRUST,
+        "technique": "CFG dominance + effect summaries + call-set agreement + operand provenance",
+    },
+    "C14": {
+        "level": "Static decision of the structure of insert-then-delete pairing: spill reset dominates every relocation, array-formula pre-check dominates "
+                 "the first persistent write with no explicit error after it, formulas/links/conditional formats displaced together, "
+                 "descriptor shift provenance (or move order reversed iff delta>0), values moved as cells not re-typed text.",
+        "note": "The index maps (references, CF ranges, links, column descriptors) being equal/inverse is arithmetic over symbolic positions and is not decided; values after the edit are not decided. " + TRUST,
+        "technique": "CFG dominance + effect summaries + call-set agreement + operand provenance",
+    },
+    "C15": {
+        "level": "Static decision of the structure of block moves: spill reset dominates every relocation, array-formula pre-check dominates "
+                 "the first persistent write with no explicit error after it, formulas/links/conditional formats displaced together, "
+                 "descriptor shift provenance (or move order reversed iff delta>0), values moved as cells not re-typed text.",
+        "note": "The index maps (references, CF ranges, links, column descriptors) being equal/inverse is arithmetic over symbolic positions and is not decided; values after the edit are not decided. " + TRUST,
+        "technique": "CFG dominance + effect summaries + call-set agreement + operand provenance",
+    },
     "C16": {
         "level": "Exhaustive static decision for the cut/paste printer to_string_moved: the same 581 PAREN cells as C09 against the "
                  "parser grammar, and the separator/array-nesting tables of both printers against the tokens the parser expects "
